@@ -164,3 +164,66 @@ def report_mismatches(rep, prop: str, bad: list) -> None:
 def run_c03(ctx) -> None:
     bad = run_bmadx_correspondence(ctx, "C03", ctx.n(25, 500))
     report_mismatches(ctx.report, "C03", bad)
+    run_drift_jacobian_correspondence(ctx, "C03", ctx.n(60, 3000))
+
+
+def run_drift_jacobian_correspondence(ctx, prop: str, n: int) -> None:
+    """autograd Jacobian of the real `bmadx.track_a_drift` (outputs x, y, z; momenta pass through) at random transportable
+    particles — paraxial and strongly off-axis, |pz| up to 0.5 — vs the closed-form Jacobian `driftJacList` of the Lean
+    model (driver op `bdjac`), the matrix `C03.bmadx_drift_jacobian` proves to be the Jacobian and
+    `C03.bmadx_drift_symplectic` proves symplectic."""
+    import torch
+    from cheetah.utils import bmadx
+    from common import LeanDriver, vec_close
+    rep, rng = ctx.report, ctx.rng
+    drv = LeanDriver()
+    pend = []
+    for c in range(n):
+        big = c % 3 == 0
+        L = float(rng.choice([0.0, float(rng.uniform(0.01, 5.0)), -0.3]))
+        En = E.energy(rng)
+        mc2 = float(rng.choice([E.MC2, E.MC2, 105.6583755e6, 938.27208816e6]))
+        if En <= mc2 * 1.01:
+            En = mc2 * float(rng.uniform(1.05, 50.0))
+        p0c = float(np.sqrt(En * En - mc2 * mc2))
+        sc = 0.3 if big else 3e-3
+        px, py = (float(x) for x in rng.normal(0, sc, 2))
+        pz = float(rng.choice([0.0, float(rng.normal(0, 0.1 if big else 1e-3))]))
+        if c % 7 == 0:
+            px = py = 0.0
+        if not (1 + pz > 0.05 and px * px + py * py < 0.8 * (1 + pz) ** 2):
+            rep.count("bdjac-skipped:not-transportable")
+            continue
+        x0 = [float(v) for v in rng.normal(0, 1e-3, 3)]
+        v = torch.tensor([x0[0], px, x0[1], py, x0[2], pz], dtype=torch.float64)
+
+        def f(w):
+            xo, yo, zo = bmadx.track_a_drift(torch.tensor(L, dtype=torch.float64), w[0:1], w[1:2], w[2:3], w[3:4], w[4:5], w[5:6],
+                                            torch.tensor(p0c, dtype=torch.float64), torch.tensor(mc2, dtype=torch.float64))
+            return torch.cat([xo.reshape(1), w[1:2], yo.reshape(1), w[3:4], zo.reshape(1), w[5:6]])
+        try:
+            J = torch.autograd.functional.jacobian(f, v).reshape(36).tolist()
+        except Exception as ex:
+            rep.count(f"bdjac-rejected:{type(ex).__name__}")
+            continue
+        idx = drv.call("bdjac", L, p0c, mc2, px, py, pz)
+        pend.append((dict(L=L, p0c=p0c, mc2=mc2, px=px, py=py, pz=pz), J, idx, "big" if big else "paraxial"))
+    replies = drv.run()
+    for prm, J, idx, cls in pend:
+        rep.corr_cases += 1
+        rep.count(f"bdjac:{cls}")
+        rep.case(("bdjac", cls, "L=0" if prm["L"] == 0 else "L!=0"), prm if rep.corr_cases % 20 == 1 else None)
+        model = replies[idx]
+        if isinstance(model, str):
+            rep.fail("correspondence", f"{prop}|driver|bdjac", f"Lean driver error {model}", prm, found_input=False)
+            continue
+        ok, w, i = vec_close(J, model, ulps=1e5, scale=max(1.0, abs(prm["L"])))
+        rep.ulp(w)
+        if not ok:
+            ctx.escalate = True
+            a, b = divmod(max(i, 0), 6)
+            rep.fail("correspondence", f"{prop}|model-mismatch|track_a_drift jacobian",
+                     f"autograd Jacobian entry [{a},{b}] of bmadx.track_a_drift = {J[i]!r} differs from the closed-form Jacobian of the Lean model {model[i]!r}",
+                     {"kind": "bdjac", "params": prm, "entry": [a, b],
+                      "broken": "correspondence autograd(track_a_drift) <-> CheetahModel.BmadxJac.driftJacList (C03.bmadx_drift_jacobian)"},
+                     found_input=False)
